@@ -110,6 +110,21 @@ class Ctx:
                    'arguments passed by name to a callee of the package sit in the positions of the parameters of the same name (no two swapped); '
                    'no parameter defaults to a mutable object (it would be shared between calls, hands and instances)',
                    got='; '.join(w for _, w in sw[:2]) if sw else '')
+            if fi.cls is not None:
+                kw = _known_writes().get(f'{fi.module}:{qn}')
+                if kw is not None:
+                    from .defined import written_attrs
+                    new = sorted(written_attrs(fi.node) - set(kw))
+                    where = fi.node
+                    if new:
+                        for n in ast.walk(fi.node):
+                            if isinstance(n, ast.Attribute) and n.attr == new[0] and isinstance(n.value, ast.Name) and n.value.id in ('self', 'cls'):
+                                where = n
+                                break
+                    chk.ob(f'{chk.pid}.writers', qn, not new, loc(fi, where),
+                           'the function writes only the attributes it wrote when the rules were written: a new write is a side effect (a second '
+                           'writer of a field the phase logic owns, a cache that can go stale) that no clause of the property accounts for',
+                           got=new or '')
             dyn = _dynamic(self.prog, fi)
             chk.ob(f'{chk.pid}.static', qn, not dyn, loc(fi, dyn[0][0]) if dyn else loc(fi, fi.node),
                    'the function runs when and as its body says: no decorator beyond the plain ones of the code base (a cache answers from '
@@ -193,3 +208,19 @@ def _dynamic(prog, fi):
                 if name not in PLAIN_DECORATORS:
                     out.append((d, f'class decorator @{ast.unparse(d)} on {c.name}'))
     return out
+
+
+_KW = None
+
+
+def _known_writes() -> dict:
+    global _KW
+    if _KW is None:
+        import json
+        import os
+        try:
+            with open(os.path.join(os.path.dirname(os.path.abspath(__file__)), 'known_writes.json'), encoding='utf-8') as fp:
+                _KW = json.load(fp)
+        except OSError:
+            _KW = {}
+    return _KW
